@@ -324,6 +324,12 @@ func run(c *vf.Ctx) {
 				case pmu <- struct{}{}:
 					if len(pool) < vf.Pick(c, 60, 400) {
 						pool = append(pool, poolBlock{prev.CS, a.B, append([]string(nil), path...), spn.Name})
+						// variant: the same block with one input-less (arbitrary data only) transaction placed first AND
+						// last - a block may legally contain the same transaction several times
+						if rb, ok := repeatedVariant(prev.CS, a.B, a.BS); ok && n <= 3 {
+							pool = append(pool, poolBlock{prev.CS, rb, append(append([]string(nil), path...), "variant:repeated-transaction"), spn.Name})
+							c.Count("outline_blocks_with_a_repeated_transaction", 1)
+						}
 					}
 					<-pmu
 				default:
@@ -338,7 +344,29 @@ func run(c *vf.Ctx) {
 	vf.ParallelFor(len(pool), func(i int) { outlines(c, pool[i], pool[(i+1)%len(pool)]) })
 	c.Set("outline_blocks", len(pool))
 	c.Sample(accCase{M: 13, Groups: [][]int{{2}, {5, 12}}, Chain: true, Seed: c.Seed})
-	c.RequireFeature("multiproof_roundtrips", "chain_index_elements", "duplicate_leaf_blocks", "feature:v2_ephemeral_spend", "outline_complete_exact", "outline_missing_exact", "outline_codec_roundtrips")
+	c.RequireFeature("multiproof_roundtrips", "chain_index_elements", "duplicate_leaf_blocks", "feature:v2_ephemeral_spend", "outline_complete_exact", "outline_missing_exact", "outline_codec_roundtrips", "outline_blocks_with_a_repeated_transaction")
+}
+
+// repeatedVariant inserts the same data-only v2 transaction at the front and at the end of a v2 block, re-seals it and
+// keeps it only if the real ValidateBlock accepts it.
+func repeatedVariant(cs consensus.State, b types.Block, bs consensus.V1BlockSupplement) (types.Block, bool) {
+	if b.V2 == nil {
+		return b, false
+	}
+	d := types.V2Transaction{ArbitraryData: []byte("c18 repeated transaction")}
+	nb := b
+	v2 := *b.V2
+	v2.Transactions = append(append([]types.V2Transaction{d}, b.V2.Transactions...), d)
+	nb.V2 = &v2
+	if len(nb.MinerPayouts) != 1 {
+		return b, false
+	}
+	nb.V2.Commitment = cs.Commitment(nb.MinerPayouts[0].Address, nb.Transactions, nb.V2Transactions())
+	chain.Seal(cs, &nb)
+	if err := consensus.ValidateBlock(cs, nb, bs); err != nil {
+		return b, false
+	}
+	return nb, true
 }
 
 type poolBlock struct {
@@ -357,12 +385,21 @@ func blockBytes(b types.Block) []byte { return enc(types.V2Block(b).EncodeTo) }
 
 func outlines(c *vf.Ctx, pb, other poolBlock) {
 	b, cs := pb.b, pb.cs
+	// distinct transactions of the block with their multiplicities (the outline replaces transactions by hash, so
+	// every occurrence of an omitted transaction is omitted)
 	var all []outlineTx
+	mult := map[types.Hash256]int{}
 	for i := range b.Transactions {
-		all = append(all, outlineTx{v1: &b.Transactions[i]})
+		h := b.Transactions[i].MerkleLeafHash()
+		if mult[h]++; mult[h] == 1 {
+			all = append(all, outlineTx{v1: &b.Transactions[i]})
+		}
 	}
 	for i := range b.V2.Transactions {
-		all = append(all, outlineTx{v2: &b.V2.Transactions[i]})
+		h := b.V2.Transactions[i].MerkleLeafHash()
+		if mult[h]++; mult[h] == 1 {
+			all = append(all, outlineTx{v2: &b.V2.Transactions[i]})
+		}
 	}
 	// two unrelated transactions from another block
 	var unrelated []outlineTx
@@ -417,8 +454,12 @@ func outlines(c *vf.Ctx, pb, other poolBlock) {
 		for _, t := range missing {
 			wantMissing[hashOf(t)] = true
 		}
-		if got := bo.Missing(); !sameHashSet(got, wantMissing) || len(got) != len(missing) {
-			fail("missing", fmt.Sprintf("Missing() reports %d hashes, %d transactions were omitted", len(got), len(missing)), omit)
+		slots := 0
+		for _, t := range missing {
+			slots += mult[hashOf(t)]
+		}
+		if got := bo.Missing(); !sameHashSet(got, wantMissing) || (len(got) != len(missing) && len(got) != slots) {
+			fail("missing", fmt.Sprintf("Missing() reports %d hashes, %d distinct transactions (%d positions) were omitted", len(got), len(missing), slots), omit)
 			continue
 		}
 		// codec round trip
